@@ -32,3 +32,8 @@ claim("C08", "static analysis: linear normal forms with ceil/floor lemmas over t
   "Decides for all integer inputs (no enumeration) that IsStrongQuorum normalises to 3·part − 2·whole ≥ 0, hasWeakQuorum implies 3·part − whole ≥ 1, the division helper is a ceiling division by shape, CouldReachStrongQuorumFor is IsStrongQuorum(min(support + T − S [+ ⌊T/3⌋], T), T); that every call site takes part and whole from one power table; that no second threshold exists; and that scalePower is the arbitrary-precision ⌊65535·p/T⌋ under T ≥ p with all users passing the table's own total (C08.R1–R4).",
   "Trusts the integer lemmas listed in the evidence, AS3 (Σ⌊M·pᵢ/Σp⌋ ≤ M), go/types, go/ssa, checker/lin.go and checker/c08.go.",
   "DESIGN.md §4 C08")
+
+claim("C09", "static analysis: guard dominance (SCCP) on every path of Put, field-writer ownership, lock/drain discipline, linear-form checkpoint agreement on certstore",
+  "Decides that in Put no datastore write, in-memory update or notification is reachable unless every admission check (first instance, non-empty, well-formed, exact successor, delta applies, CID equals the committed table, non-empty table) has passed on that path; that a stale put writes nothing and returns nil; who writes the in-memory head and with what; that the pointer is the last write; capacity-1 drain-then-send notification under the exclusive lock; checkpoint writer/reader agreement and GetPowerTable's range as linear forms; shared key constructors and ascending range reads (C09.R1–R7). Structural necessary conditions; model equivalence over histories is not decided.",
+  "AS1 datastore atomic/non-failing; trusts go/types, go/ssa, checker/c09.go.",
+  "DESIGN.md §4 C09")
